@@ -221,6 +221,34 @@ var cascadeNames = []string{"asis/ansi", "asis/mysql", "'/ansi", "'/mysql", "\"/
 
 func gate(p *li.VerifSQLPass) bool { return p.StatsCommentDDX != 0 || p.StatsCommentHash != 0 }
 
+func sqlWhiteByte(c byte) bool {
+	return c == ' ' || c == '\t' || c == '\n' || c == '\v' || c == '\f' || c == '\r' || c == 0xa0 || c == 0
+}
+
+// seenHashOrDDX decides the documented MySQL re-parse gate independently of
+// the library's counters: among the tokens the ANSI pass actually lexed (the
+// first StatsTokens tokens of the same-mode token stream) there is a '#'
+// operator or a "--x" comment (two dashes followed by a non-white byte).
+func seenHashOrDDX(s string, mode int, p *li.VerifSQLPass) bool {
+	if len(s) > 1<<16 {
+		return gate(p)
+	}
+	tr := li.VerifSQLTokens(s, mode)
+	n := p.StatsTokens
+	if n > len(tr.Tokens) {
+		n = len(tr.Tokens)
+	}
+	for _, t := range tr.Tokens[:n] {
+		if t.Category == 'o' && t.Len == 1 && t.Val == "#" {
+			return true
+		}
+		if t.Category == 'c' && t.Len >= 2 && t.Val[:2] == "--" && t.Pos+2 < len(s) && !sqlWhiteByte(s[t.Pos+2]) {
+			return true
+		}
+	}
+	return false
+}
+
 func cascade(s string) cascadeResult {
 	var r cascadeResult
 	r.fired = -1
@@ -239,14 +267,14 @@ func cascade(s string) cascadeResult {
 	if run(0) {
 		return r
 	}
-	if gate(r.passes[0]) && run(1) {
+	if seenHashOrDDX(s, sqlModes[0], r.passes[0]) && run(1) {
 		return r
 	}
 	if strings.IndexByte(s, '\'') >= 0 {
 		if run(2) {
 			return r
 		}
-		if gate(r.passes[2]) && run(3) {
+		if seenHashOrDDX(s, sqlModes[2], r.passes[2]) && run(3) {
 			return r
 		}
 	}
@@ -375,7 +403,7 @@ func c08() *core.Check {
 func c12() *core.Check {
 	return &core.Check{
 		ID: "C12",
-		Rule: "for every SQL workload input: (a) IsSQLi is compared with the documented cascade evaluated over fresh-state per-context observations (gates from the counters of the pass itself); (b) for q in {',\"} and both dialects the fingerprint, verdict (unless sos/s&s) and token stream of reading s inside q are compared with reading q+s as-is. " +
+		Rule: "for every SQL workload input: (a) IsSQLi is compared with the documented cascade evaluated over fresh-state per-context observations (the MySQL gate is decided from the tokens the ANSI pass lexed: a '#' operator or a '--x' comment); (b) for q in {',\"} and both dialects the fingerprint, verdict (unless sos/s&s) and token stream of reading s inside q are compared with reading q+s as-is. " +
 			"Non-trivial = distinct inputs whose firing context is not the first, or whose quote-context token stream has >= 2 tokens.",
 		Plan: sqlPlan(c08Quick, c08Thorough),
 		Gen:  sqlGen,
